@@ -56,6 +56,10 @@ class UserError(Exception):
     pass
 
 
+class UserInterrupt(BaseException):
+    """stands for KeyboardInterrupt / SystemExit / GeneratorExit / CancelledError: an exception that is not an Exception"""
+
+
 def quiet():
     return contextlib.redirect_stdout(io.StringIO())
 
@@ -359,6 +363,14 @@ def run(ctx):
                 except UserError:
                     pass
                 judge("state restored after exception in block body", "body raises", "not restored after exception in the block body: " + name)
+                # (i') the block is left by an exception that is not an Exception subclass (Ctrl-C during a computation, a closed generator)
+                def boom2():
+                    raise UserInterrupt("interrupt inside the block body")
+                try:
+                    op(boom2)
+                except UserInterrupt:
+                    pass
+                judge("state restored after exception in block body", "body interrupted (BaseException)", "not restored after a BaseException in the block body: " + name)
                 # (ii) injected fault at every k-th call of every inner function
                 for key, total in sorted(clean_counts.items()):
                     ks = list(range(1, total + 1))
